@@ -157,6 +157,7 @@ func runStandard(t *testing.T, p *Prop, sc *world.Scenario, out *Outcome) {
 	for range w.Panics {
 		out.probe("panic-on-request-goroutine")
 	}
+	reportLockLeaks(p.ID, w, out)
 	out.Steps = w.S.StepNo()
 	out.SimMs = w.S.SimTime().Milliseconds()
 	out.Hash = w.S.Hash()
@@ -227,4 +228,13 @@ func clipS(s string) string {
 		return s[:40]
 	}
 	return s
+}
+
+// reportLockLeaks: on an engine that holds its store lock from BeginBatchWrite to Commit (memkv), a write
+// batch that is begun and never committed wedges the node: every later engine call waits for ever. The seam
+// replays such an engine's batches at Commit, so the simulated run goes on; the seam reports what it saw.
+func reportLockLeaks(P string, w *world.World, out *Outcome) {
+	for _, l := range w.KV.LockLeaks {
+		out.violate(P, "store-lock-never-released", "store-lock-never-released", "memkv's store lock would never be released: %s", l)
+	}
 }
